@@ -342,6 +342,23 @@ func spRun(c *spCase) map[string]any {
 		fnd = append(fnd, spClassify(f, r))
 	}
 	obs["findings"] = fnd
+	// documented output order (C08): findings by (advisory reference, extra), statuses by plugin name
+	ordered := true
+	for i := 1; i < len(res.Inventory.Findings); i++ {
+		a, b := res.Inventory.Findings[i-1], res.Inventory.Findings[i]
+		if a == nil || b == nil || a.Adv == nil || b.Adv == nil || a.Adv.ID == nil || b.Adv.ID == nil {
+			continue
+		}
+		if a.Adv.ID.Reference > b.Adv.ID.Reference || (a.Adv.ID.Reference == b.Adv.ID.Reference && a.Extra > b.Extra) {
+			ordered = false
+		}
+	}
+	for i := 1; i < len(res.PluginStatus); i++ {
+		if res.PluginStatus[i-1] != nil && res.PluginStatus[i] != nil && res.PluginStatus[i-1].Name > res.PluginStatus[i].Name {
+			ordered = false
+		}
+	}
+	obs["ordered"] = ordered
 	isDet := map[string]bool{}
 	for _, d := range c.Dets {
 		isDet[d.Name] = true
